@@ -1,6 +1,6 @@
 """C09 — nearest-good-day fallback finds the closest date with valid twilight (engine M)."""
 from ..common import *
-from ..obl import base, policy, jd
+from ..obl import base, policy, jd, wiring
 from . import policyprop as pp
 
 LEVEL = "model_checking"
@@ -17,11 +17,12 @@ def run(rep):
                   "loop unrolling": "%d iterations, paths that run past the bound must have no valid offset within it" % (B + 3),
                   "policies": "NearestGoodDayFajrIshaInvalid, NearestGoodDayAllPrayersAlways"}
     rep.assumptions += ["|lat| <= 64 (property quantifier): Shurooq, Dhuhr, Asr and Maghrib exist on the requested day and on every good day",
-                        "test_fajr_isha is a stub returning Some(map_d) iff valid[d]; its real body (get_hours + both Ok filter) is covered by "
-                        "the kernel obligations (C03/C06) and the get_hours wiring obligation",
+                        "in the search obligation test_fajr_isha is a stub returning Some(map_d) iff valid[d]; its real body is decided by the "
+                        "separate obligation tfi_wiring (= get_hours(from_jd(jd, coords)) filtered on both twilights being Ok, nothing else; "
+                        "Astro::new is an unconstrained stub there); get_hours itself is C03/C06",
                         "good days farther than B from the requested date are outside this tier's claim"]
     obls = [(policy.good_day, ("NearestGoodDayFajrIshaInvalid", B)), (policy.good_day, ("NearestGoodDayAllPrayersAlways", B)),
-            (jd.jd_step, "add"), (jd.jd_step, "sub")]
+            (jd.jd_step, "add"), (jd.jd_step, "sub"), (wiring.tfi_wiring, None)]
     results = base.run_obligations(rep, obls)
     cands = [c for x in results for c in x["cands"]]
     if cands:
